@@ -18,6 +18,9 @@ FORMS = [
     corpus._c("c06_mixed_types_ids", '''
 m=mesh("triangle"); V=space(m,"P",1); u,v=TrialFunction(V),TestFunction(V); f=Coefficient(V); g=Coefficient(V)
 objs=[f*u*v*dx(5) + u*v*dx(2) + g*u*v*dx + u*v*ds(7) + u*v*ds(1) + avg(f)*jump(u)*jump(v)*dS(3) + u*v*dx((2,9))]'''),
+    corpus._c("c06_interleaved_tuple_ids", '''
+m=mesh("triangle"); V=space(m,"P",1); u,v=TrialFunction(V),TestFunction(V)
+objs=[u*v*dx((1,3)) + inner(grad(u),grad(v))*dx(2), 2*u*v*dx((5,1)) + 3*inner(grad(u),grad(v))*dx((3,0)) + 5*u*v*dx(2) + u*v*ds((4,1)) + 7*u*v*ds(2)]'''),
     corpus._c("c06_prism_facets_and_vertices", '''
 m=mesh("prism"); V=space(m,"P",1); u,v=TrialFunction(V),TestFunction(V)
 objs=[u*v*dx + u*v*ds + u*v*dP]'''),
@@ -173,6 +176,23 @@ def run(v, tier, seed, g):
                             {"case": r["id"], "code": r["code"], "descriptor": {k: d[k] for k in ("offsets", "ids", "rank", "num_coefficients", "original_coefficient_positions")}})
             elif len(v.samples) < 4:
                 v.samples.append({"case": r["id"], "offsets": offs, "ids": ids, "declared": exp})
+    # ---- dispatch: the kernels listed under (type, id) are those of the integral groups declared for id
+    #      (each such kernel is compared with the sum of its group's integrands by the oracle of C01/C02)
+    dres = common.run_cases(cases + [c for c in corpus.PINNED if "dx(" in c["code"] or "ds(" in c["code"]] +
+                            corpus.random_cases(seed, 25 if tier == "quick" else 400), want_text=True)
+    ndis = 0
+    for r in dres:
+        for fdesc in r.get("forms", []):
+            ndis += 1
+            ok = fdesc["expected"] == fdesc["listed"]
+            v.oblige(ok)
+            if not ok:
+                diff = {str(k): (fdesc["listed"].get(k), fdesc["expected"].get(k)) for k in set(fdesc["expected"]) | set(fdesc["listed"])
+                        if fdesc["listed"].get(k) != fdesc["expected"].get(k)}
+                v.violation(f"dispatch:{r['id']}", f"form descriptor lists the wrong kernels under some (type, id): (listed, expected) {str(diff)[:300]}",
+                            {"case": r["id"], "code": r["code"], "difference": {k: [str(x) for x in d] for k, d in diff.items()},
+                             "ids": fdesc["ids"], "offsets": fdesc["offsets"]})
+    v.notes["descriptors_dispatch_checked"] = ndis
     if not g["ok"] and not v.violations:
         v.violation("gate", "proof obligations no longer check: " + "; ".join(g["broken"]), {"broken": g["broken"]}, no_input=True)
     cov = {"checker_cmd": f"./check C06 --tier {tier}",
